@@ -142,6 +142,28 @@ theorem irf_set_view (s : Cache) (E : Externals) (now : Int) (k v : PyVal) (h : 
     · rw [if_neg hb] at hA ⊢
       rw [hA.2 k', irf_abs_get]
 
+/-- the result of the assignment: `None`, or the exception of `Cache.set` -/
+theorem irf_set_out (s : Cache) (E : Externals) (now : Int) (k v : PyVal) (h : irf_Inv s) :
+    (match (s.set E now k v none false .null).2 with | .exc e => Out.exc e | _ => .none) =
+      (OSpec.setitem (irf_abs s) E s.cfg k v).2 := by
+  have hA := rf_set_view s E now k v none false .null h.good h.pol
+  unfold OSpec.setitem
+  cases hpl : place E s.cfg.disk s.cfg.minFileSize v false with
+  | error e =>
+    rw [hpl] at hA
+    simp only at hA ⊢
+    rw [hA]
+  | ok p =>
+    rw [hpl] at hA
+    simp only [Option.map_none] at hA ⊢
+    have ht : bindable (entryOf p none .null).tag = true := by rw [rf_entryOf_tag]; rfl
+    rw [ht, Bool.and_true] at hA
+    by_cases hb : (bindable (keyOf E s.cfg k).1 && bindable (entryOf p none .null).val) = true
+    · rw [if_pos hb] at hA ⊢
+      rw [hA.1]
+    · rw [if_neg hb] at hA ⊢
+      rw [hA.1]
+
 theorem irf_set (s : Cache) (E : Externals) (now : Int) (k v : PyVal) (h : irf_Inv s) :
     irf_abs (s.set E now k v none false .null).1 = (OSpec.setitem (irf_abs s) E s.cfg k v).1 ∧
     (s.set E now k v none false .null).1.cfg = s.cfg ∧
